@@ -16,7 +16,7 @@ Lemma gen_runner_lookup_body : forall c now p,
   hit c now p =
   match g_runner_lookup_body (risSome g) (Z.of_N (r_blk (rget g))) (Z.of_N (pl_blk p))
                              (Z.of_N (r_hash (rget g))) (Z.of_N (pl_hash p)) with
-  | ([1], Cont) => g
+  | ([1], Fall) => g
   | _ => None
   end.
 Proof.
